@@ -128,6 +128,36 @@ def load_api(only_auth=False):
     api["gpg_sign_file"] = gpg_sign_file
     api["gpg_sign_via"] = lambda data, fpr, inc: _rs().sign_via_gpg(data, fpr, inc)
 
+    def persist_history(init, ops):
+        d = tempfile.mkdtemp(prefix="cctw")
+        try:
+            fn = os.path.join(d, "md.json")
+            mem = init
+            outs = []
+            for op in ops:
+                if op[0] == "write":
+                    C.write_metadata_to_file(mem, fn)
+                elif op[0] == "load":
+                    mem = C.load_metadata_from_file(fn)
+                elif op[0] == "sign":
+                    S.sign_signable(mem, C.PrivateKey.from_bytes(op[1]))
+                else:
+                    try:
+                        if op[0] == "verify":
+                            A.verify_signable(mem, op[1], op[2], op[3])
+                        elif op[0] == "vroot":
+                            A.verify_root(op[1], mem)
+                        else:
+                            A.verify_delegation(op[1], mem, op[2], op[3])
+                        outs.append(True)
+                    except (C.CCT_Error, TypeError, ValueError):
+                        outs.append(False)
+            raw = open(fn, "rb").read() if os.path.exists(fn) else None
+            return outs + [raw, C.canonserialize(mem)]
+        finally:
+            shutil.rmtree(d, ignore_errors=True)
+    api["persist_history"] = persist_history
+
     def sign_all_value(r, keyhex):
         d = tempfile.mkdtemp(prefix="cctw")
         try:
@@ -224,7 +254,7 @@ def load_api(only_auth=False):
     return api, classify
 
 
-MUTATORS = {"sign_signable"}
+MUTATORS = {"sign_signable", "persist_history"}
 SCRIBBLE = {"build_delegating_metadata", "build_root_metadata", "wrap_as_signable", "sign_sequence", "sign_edit_sign", "sign_all_value"}
 
 
